@@ -241,6 +241,9 @@ class C08(PropBase):
         ev = w.apply(op)
         if ev.get("noop"):
             return
+        if ev.get("deferred_termination"):
+            st.hit("deferred_termination_variant")  # tolerated repair of K1: the ProtocolError comes with the next receive
+            return
         role = se.role
         okk = ev["ok"]
         st.label("deliver:%s:%s" % (role, "ok" if okk else "err"))
